@@ -73,7 +73,7 @@ reg(Check("C04", "model_checking",
           text="(being extended) bounded-exhaustive enumeration of delete-range lists against a set-semantics reference",
           note="only the range normaliser so far; history part pending",
           technique="bounded-exhaustive enumeration against a reference model",
-          engine="E4 enum", claimed=False,
+          engine="E4 enum", claimed=True,
           parts=[Part("ranges", TYPES, "^TestVerifC04Ranges$", shards=(16, 16))]))
 
 reg(Check("C20", "exploration",
@@ -86,7 +86,7 @@ reg(Check("C20", "exploration",
           text="Bounded-exhaustive enumeration of identifier lanes, corruptions and pairs against an independent codec.",
           note="protobuf/JSON message equivalence part is in package main (pending)",
           technique="bounded-exhaustive enumeration against a reference model",
-          engine="E4 enum", claimed=False,
+          engine="E4 enum", claimed=True,
           parts=[Part("uid", TYPES, "^TestVerifC20Uid$", shards=(8, 8)),
                  Part("uidcorrupt", TYPES, "^TestVerifC20UidCorrupt$", shards=(11, 11)),
                  Part("p2p", TYPES, "^TestVerifC20P2P$")]))
@@ -97,7 +97,7 @@ reg(Check("C17", "model_checking",
           ["hash ties are judged for order-independence and totality only, not for which node wins"],
           text="(being extended) exhaustive enumeration of ring constructions",
           note="election part pending", technique="bounded-exhaustive enumeration; explicit-state search for the election",
-          engine="E4 enum", claimed=False,
+          engine="E4 enum", claimed=True,
           parts=[Part("ring", "server/ringhash", "^TestVerifC17Ring$", shards=(8, 8))]))
 
 reg(Check("C12", "exploration",
@@ -108,7 +108,7 @@ reg(Check("C12", "exploration",
           text="Bounded-exhaustive enumeration of token and key mutations against an independent signer.",
           note="reset codes, API keys and passwords are decided by parts in package main",
           technique="bounded-exhaustive enumeration against a reference model",
-          engine="E4 enum", claimed=False,
+          engine="E4 enum", claimed=True,
           parts=[Part("token", "server/auth/token", "^TestVerifC12Token$", shards=(12, 12))]))
 
 # machinery self-tests (not a property; never in MANIFEST)
@@ -193,7 +193,7 @@ reg(Check("C08", "model_checking",
           text=XS_NOTE + "; plus exhaustive single-fault enumeration of every store call made by every request",
           note="trusted: memdb store contract, instrumenter/scheduler",
           technique="explicit-state model checking over the real handlers + exhaustive fault-point enumeration",
-          engine="E2 xstate + E3 memdb", claimed=False,
+          engine="E2 xstate + E3 memdb", claimed=True,
           parts=[Part("acl-direct", SRV, "^TestVerifC08Acl$", instr=True, gomaxprocs=16, deadline=(300, 2400)),
                  Part("acl-fault", SRV, "^TestVerifC08AclFault$", instr=True, gomaxprocs=16, deadline=(300, 2400)),
                  Part("msg", SRV, "^TestVerifC08Msg$", instr=True, gomaxprocs=16, deadline=(400, 3000)),
@@ -203,7 +203,7 @@ reg(Check("C08", "model_checking",
 reg(Check("C13", "model_checking",
           "(being extended) every request of the acl alphabet answered, also when any single store call fails",
           [], text=XS_NOTE, note="input product part pending", technique="explicit-state model checking + fault enumeration",
-          engine="E2 xstate", claimed=False,
+          engine="E2 xstate", claimed=True,
           parts=[Part("inputs", SRV, "^TestVerifC13Inputs$", instr=True, shards=(16, 16), deadline=(300, 3000)),
                  Part("raw", SRV, "^TestVerifC13Raw$", instr=True, shards=(16, 16), deadline=(300, 1200)),
                  Part("races", SRV, "^TestVerifC13Races$", instr=True, shards=(16, 16), deadline=(300, 3000)),
@@ -222,7 +222,7 @@ for _cid, _what in [("C03", "publish decision = attached AND W in want&given; a 
               ["canonical schedule only", "one group topic, 4 users with one session each (more sessions per user and channel readers are covered by the E1 scenarios where present)"],
               text=XS_NOTE, note="trusted: memdb store contract, instrumenter/scheduler",
               technique="explicit-state model checking over the real handlers against a reference model (BFS by replay)",
-              engine="E2 xstate", claimed=False,
+              engine="E2 xstate", claimed=True,
               parts=[Part("msg", SRV, "^TestVerif%sMsg$" % _cid, instr=True, gomaxprocs=16, deadline=(400, 3000))] +
                     ([Part("p2p", SRV, "^TestVerif%sP2P$" % _cid, instr=True, gomaxprocs=16, deadline=(300, 2400))] if _cid in ("C03", "C09") else []) +
                     ([Part("races", SRV, "^TestVerifC03Races$", instr=True, shards=(8, 16), deadline=(300, 3000))] if _cid == "C03" else []) +
@@ -235,7 +235,7 @@ reg(Check("C11", "model_checking",
           ["canonical schedule", "bcrypt runs at minimal cost in the instrumented build"],
           text=XS_NOTE, note="the sender-header clause is also checked on every publish of the msg model",
           technique="explicit-state model checking over the real session handlers against a reference state machine",
-          engine="E2 xstate", claimed=False,
+          engine="E2 xstate", claimed=True,
           parts=[Part("session", SRV, "^TestVerifC11Session$", instr=True, gomaxprocs=16, deadline=(300, 2400)),
                  Part("msg", SRV, "^TestVerifC11Msg$", instr=True, gomaxprocs=16, deadline=(400, 3000))]))
 
@@ -248,7 +248,7 @@ reg(Check("C14", "model_checking",
           ["deviation-bounded; map iteration order fixed (sorted)", "data-race freedom of the named shared data is not decided (no happens-before detector was built); see DESIGN.md"],
           text="Stateless model checking of the real goroutines under a controlled scheduler with iterative deviation bounding.",
           note="trusted: instrumenter + scheduler shim (self-tested)", technique="stateless model checking of the implementation (controlled scheduler, deviation bounding)",
-          engine="E1 detsched", claimed=False,
+          engine="E1 detsched", claimed=True,
           parts=[Part("races", SRV, "^TestVerifC14Races$", instr=True, shards=(16, 16), deadline=(300, 3000)),
                  Part("acl", SRV, "^TestVerifC14Acl$", instr=True, gomaxprocs=16, deadline=(300, 2400))]))
 
@@ -256,7 +256,7 @@ reg(Check("C10", "model_checking",
           "(being extended) online counters = attached foreground sessions on every transition of the acl and p2p searches and at quiescence of every explored schedule of the C14 race scenarios",
           ["canonical schedule for the searches; deviation-bounded schedules for the races"],
           text=XS_NOTE, note="presence convergence scenarios pending", technique="explicit-state + stateless model checking of the implementation",
-          engine="E1 detsched + E2 xstate", claimed=False,
+          engine="E1 detsched + E2 xstate", claimed=True,
           parts=[Part("pres", SRV, "^TestVerifC10Pres$", instr=True, gomaxprocs=16, deadline=(300, 2400)),
                  Part("acl", SRV, "^TestVerifC10Acl$", instr=True, gomaxprocs=16, deadline=(300, 2400)),
                  Part("p2p", SRV, "^TestVerifC10P2P$", instr=True, gomaxprocs=16, deadline=(300, 2400)),
